@@ -158,7 +158,22 @@ func checkPutRemoveStmt(prop string, w *World, si int, h *HistStmt, r *StmtRes, 
 		return vs, true
 	}
 	if r.StepCap {
-		add("no-termination", fmt.Sprintf("the plan never reported end-of-stream (%d polls); it issued %d write call(s) for a statement that states %d", len(r.Polls), len(writes), len(h.Pairs)))
+		// The plan never reported end-of-stream. That alone is not C12's business;
+		// what is: whether the stated writes were issued more than once meanwhile.
+		st.Inc("did_not_complete")
+		want := len(h.Pairs)
+		nw := 0
+		for _, e := range writes {
+			switch e.Op {
+			case OpPut, OpDel:
+				nw++
+			default:
+				nw += len(e.Keys)
+			}
+		}
+		if nw > want {
+			add("writes-repeated", fmt.Sprintf("the plan was polled %d times without reporting end-of-stream and issued %d key writes for a statement that states %d: the writes are not issued exactly once", len(r.Polls), nw, want))
+		}
 		return vs, true
 	}
 	if r.Panic != "" {
